@@ -73,6 +73,33 @@ DecMid == {-2, 0, 2}
 DecTwo == {-2, 2}
 DecZero == {0}
 Cap1 == <<1, 1>>
+(* ASCII order of every substance name used in the pools (what sorting by name gives) *)
+NameOrderA == << "C3H5OH", "C3H6O", "CH2C(OH)CH3", "CH2CHCH2OH", "CH3CH2CHO", "CH3CHCHOH", "CH3COCH3", "H", "H+", "H2", "H2O", "H2O2", "HO2", "M", "N2", "N2O4", "NH3", "NO", "NO2", "O(CH2)3", "O2", "O2-", "OH", "OH-", "ONO", "ONONO2", "e-", "hv" >>
+BuildCfgsA == << [name |-> "default", checked |-> TRUE], [name |-> "checks_balance", checked |-> TRUE],
+                 [name |-> "checks_all_listed", checked |-> TRUE], [name |-> "dont_check_duplicate", checked |-> TRUE],
+                 [name |-> "dont_check_balance", checked |-> FALSE], [name |-> "checks_none", checked |-> FALSE],
+                 [name |-> "checks_without_balance", checked |-> FALSE] >>
+Tight == [atol |-> <<1, 1000000000>>, rtol |-> <<1, 1000000000>>]
+Loose == [atol |-> <<1, 1000000>>, rtol |-> <<1, 1000000>>]
+(* guard: the band factor of the configuration (a BDF code controls only the local error; over  *)
+(* thousands of time constants its global error is a few thousand requested tolerances)       *)
+IC(name, solver, tol, c0form, tform, explicit, guard) ==
+    [name |-> name, solver |-> solver, tol |-> tol, c0form |-> c0form, tform |-> tform, explicit |-> explicit,
+     guard |-> guard]
+IntegrCfgsA == << IC("lsoda-tight-dict-grid", "lsoda", Tight, "dict", "grid", FALSE, 200),
+                  IC("lsoda-loose-array-grid", "lsoda", Loose, "array", "grid", FALSE, 200),
+                  IC("bdf-tight-dict-end", "vode-bdf", Tight, "dict", "end", FALSE, 20000),
+                  IC("adams-tight-array-grid", "vode-adams", Tight, "array", "grid", TRUE, 2000),
+                  IC("dopri5-loose-dict-grid", "dopri5", Loose, "dict", "grid", TRUE, 200),
+                  IC("dop853-tight-array-end", "dop853", Tight, "array", "end", TRUE, 200) >>
+IntegrCfgsNone == <<>>
+TimesL == <<<<1, 100>>, <<1, 1>>, <<20, 1>>, <<200, 1>>>>
+IsoE == S("CH3CHCHOH",   <<<<1, 6>>, <<6, 3>>, <<8, 1>>>>)
+IsoF == S("CH2C(OH)CH3", <<<<1, 6>>, <<6, 3>>, <<8, 1>>>>)
+IsoG == S("C3H5OH",      <<<<1, 6>>, <<6, 3>>, <<8, 1>>>>)
+IsoH == S("O(CH2)3",     <<<<1, 6>>, <<6, 3>>, <<8, 1>>>>)
+PoolIso8 == <<IsoB, IsoH, IsoA, IsoD, IsoG, IsoC, IsoF, IsoE>>
+StIso8 == {<<3, 0, 1, 2, 0, 1, 0, 2>>}
 U(name, tout, cout, tin, cin, kt, kc) == [name |-> name, tout |-> tout, cout |-> cout, tin |-> tin, cin |-> cin, kt |-> kt, kc |-> kc]
 UnitsNone == <<>>
 UnitsA == << U("min-M", "minute", "molar", "minute", "molar", "minute", "molar"),
